@@ -243,6 +243,11 @@ def k_race(run, case):
     os.makedirs(base, exist_ok=True)
     try:
         home = prepare_home(base, lead)
+        if case.get("after_crash") is not None:
+            # debris of an earlier start that was killed, a few seconds old (whatever it left
+            # behind: a partial ~/.evo, a temporary file, a lock a later version may use)
+            child(home, ["import", "crash", int(case["after_crash"]), "kill"], variant=int(case["after_crash"]))
+            time.sleep(2.6)
         go = os.path.join(base, "go")
         stop = os.path.join(base, "stop")
         w = subprocess.Popen([PY, "-c", WATCHER, os.path.join(home, ".evo", "settings.json"), stop],
@@ -252,6 +257,8 @@ def k_race(run, case):
         for i in range(N):
             log = os.path.join(base, "log%d.json" % i)
             what, var = (lead if i == 0 else "import"), "kill"
+            if case.get("after_crash") is not None:
+                var = "jitter:%d" % [12, 25, 6][seed % 3]
             if held:
                 # A is held between write and rename, B completes a write of its own meanwhile, C starts after B
                 what = [lead, held, "import", "import"][min(i, 3)]
@@ -421,6 +428,11 @@ def main(run):
             for n in ((3, ) if run.tier == "quick" else (3, 4))]
     for i in run.mine(len(held)):
         k_race(run, run.case("race", 2 * 10**5 + i, N=held[i][2], lead=held[i][0], held=held[i][1]))
+    # concurrent starts on the debris of a start that was killed a few seconds earlier
+    n_imp = counts.get("import") or 12
+    after = [(int(k), n) for k in range(1, n_imp + 6, 2 if run.tier == "quick" else 1) for n in ((3, 6) if run.tier == "quick" else (2, 3, 4, 8))]
+    for i in run.mine(len(after)):
+        k_race(run, run.case("race", 3 * 10**5 + i, N=after[i][1], lead="import", after_crash=after[i][0]))
     run.need("settings file is absent or a complete JSON document after a kill",
              "a fresh start after the kill loads its settings with every default key",
              "no started process fails because of another one's initialisation",
